@@ -566,7 +566,8 @@ def _run_re(case):
     elif api == "draw_residual":
         def runf():
             rl, _ = jft.draw_linear_residual(lh, pos, key, point_estimates=pe, cg_kwargs=CGK)
-            rn, st = jft.draw_residual(lh, pos, key, point_estimates=pe, cg_kwargs=CGK, minimize_kwargs=MINK)
+            rn, st = jft.draw_residual(lh, pos, key, point_estimates=pe, cg=jft.conjugate_gradient.cg, cg_kwargs=CGK,
+                                      minimize_kwargs=MINK)
             a = M.re_flat(rl, ref)
             return dict(sl=np.stack([a, -a]), sn=M.re_flat(rn, ref, 1))
     else:
